@@ -106,3 +106,21 @@ def kspec_amutex(nf, spin=1, **kw):
     s['replace'].update(ABSTRACT_MUTEX)
     s['roots'] += ['a_mutex_lock', 'a_mutex_trylock', 'a_mutex_unlock', 'a_mutex_unlock_internal']
     return s
+
+
+RUNTIME_REPLACE = {'fiber_context_swap': 'f_r_swap', 'fiber_context_init': 'f_r_context_init',
+                   'fiber_context_init_from_thread': 'f_r_context_init_from_thread', 'fiber_context_destroy': 'f_r_context_destroy'}
+RUNTIME_ROOTS = ['r_swap', 'r_context_init', 'r_context_init_from_thread', 'r_context_destroy']
+RUNTIME_SRCS = ['work_stealing_deque.c', 'fiber_mutex.c', 'fiber_spinlock.c', 'hazard_pointer.c']
+
+
+def rspec(kthreads, spin=1, **kw):
+    """translator spec for a full-runtime scenario (real yield / scheduler / deque; context primitives are intrinsics)"""
+    s = {'fibers': True, 'kthreads': kthreads, 'replace': dict(RUNTIME_REPLACE), 'roots': list(RUNTIME_ROOTS), 'spin': spin,
+         'site_types': {'fiber_manager_create#calloc0': '%struct.fiber_manager', 'fiber_create_from_thread#calloc0': '%struct.fiber',
+                        'fiber_create_from_thread#calloc1': '%struct.mpsc_fifo_node', 'fiber_create_no_sched#calloc0': '%struct.fiber',
+                        'fiber_create_no_sched#calloc1': '%struct.mpsc_fifo_node', 'mpsc_fifo_init#calloc0': '%struct.mpsc_fifo_node',
+                        'fiber_scheduler_init#calloc0': '%struct.fiber_scheduler_wsd', 'wsd_work_stealing_deque_create#malloc0': '%struct.wsd_work_stealing_deque',
+                        'wsd_circular_array_create#malloc0': '%struct.wsd_circular_array'}}
+    s.update(kw)
+    return s
